@@ -884,3 +884,17 @@ Proof.
   intros progs W s t R. apply lk_rc_same. intros H.
   rewrite (lk_free_is_initial progs W s R H). reflexivity.
 Qed.
+
+(* a state in which no thread can move is one in which every thread has returned: every
+   maximal execution (finite by lk_steps_bounded) ends with all calls completed and, by
+   lk_done_released, with the lock in its initial state *)
+Theorem lk_quiescent_is_done : forall progs,
+  Forall (fun p => lk_wfprog p = true) progs -> forall s,
+  lk_reach (lk_init progs) s -> (forall i, lk_step i s = None) ->
+  lk_all_doneb s = true /\ lk_l s = lk_lock0.
+Proof.
+  intros progs W s R Q.
+  destruct (lk_all_doneb s) eqn:D.
+  - split; auto. apply (lk_done_released progs W); auto.
+  - destruct (lk_progress progs W s R D) as (i & s' & ST). rewrite Q in ST. discriminate.
+Qed.
